@@ -18,6 +18,7 @@ use soroban_token_sdk::metadata::TokenMetadata;
 use std::collections::{BTreeMap, BTreeSet};
 
 pub const NP: usize = 7; // 0 owner, 1 constructor minter, 2..=5 holders, 6 stranger
+pub const NX: usize = 3; // receive-only addresses after the principals
 const STRANGER: usize = 6;
 
 #[derive(Serialize, Deserialize, Clone, Debug)]
@@ -231,13 +232,17 @@ impl TExec {
         let env = self.sim.env.clone();
         let seq = self.sim.seq();
         let pi = |x: u8| x as usize % NP;
+        // receivers 100.. : addresses that only ever receive (the all-zero account, the account twin
+        // of a holder's contract address, the token contract itself)
+        let ri = |x: u8| if x >= 100 { NP + (x as usize - 100) % NX } else { x as usize % NP };
+        let cp = |i: usize| if i >= NP { STRANGER } else { i };
         match op {
             TOp::MintFrom { minter, to, amount, auth, abort } => {
-                let (mi, ti) = (pi(*minter), pi(*to));
+                let (mi, ti) = (pi(*minter), ri(*to));
                 let a = self.amt(amount, ti, None);
                 let args: SVec<Val> = (self.p[mi].clone(), self.p[ti].clone(), a).into_val(&env);
                 let alt: SVec<Val> = (self.p[mi].clone(), self.p[ti].clone(), a.wrapping_add(1)).into_val(&env);
-                let c = AuthCtx { right: mi, former: None, other_role: self.m.owner, counterparty: ti, owner: self.m.owner, stranger: STRANGER };
+                let c = AuthCtx { right: mi, former: None, other_role: self.m.owner, counterparty: cp(ti), owner: self.m.owner, stranger: STRANGER };
                 let (entries, ok) = self.entries(ctx, "mint_from", *auth, &c, &args, &alt);
                 let expect = if !self.m.minters.contains(&mi) {
                     if mi == self.m.owner { ctx.count("probe.owner_without_minter_status_mints"); }
@@ -256,13 +261,13 @@ impl TExec {
                 });
             }
             TOp::Mint { to, amount, auth, abort } => {
-                let ti = pi(*to);
+                let ti = ri(*to);
                 let a = self.amt(amount, ti, None);
                 let o = self.m.owner;
                 let args: SVec<Val> = (self.p[ti].clone(), a).into_val(&env);
                 let alt: SVec<Val> = (self.p[ti].clone(), a.wrapping_add(1)).into_val(&env);
                 let other = self.m.minters.iter().copied().find(|x| *x != o).unwrap_or(STRANGER);
-                let c = AuthCtx { right: o, former: self.m.former_owner, other_role: other, counterparty: ti, owner: o, stranger: STRANGER };
+                let c = AuthCtx { right: o, former: self.m.former_owner, other_role: other, counterparty: cp(ti), owner: o, stranger: STRANGER };
                 let (entries, ok) = self.entries(ctx, "mint", *auth, &c, &args, &alt);
                 let expect = if !self.m.minters.contains(&o) {
                     ctx.count("probe.owner_without_minter_status_mints");
@@ -281,11 +286,11 @@ impl TExec {
                 });
             }
             TOp::Transfer { from, to, amount, auth, abort } => {
-                let (fi, ti) = (pi(*from), pi(*to));
+                let (fi, ti) = (pi(*from), ri(*to));
                 let a = self.amt(amount, fi, None);
                 let args: SVec<Val> = (self.p[fi].clone(), self.p[ti].clone(), a).into_val(&env);
                 let alt: SVec<Val> = (self.p[fi].clone(), self.p[ti].clone(), a.wrapping_add(1)).into_val(&env);
-                let c = AuthCtx { right: fi, former: None, other_role: self.m.owner, counterparty: ti, owner: self.m.owner, stranger: STRANGER };
+                let c = AuthCtx { right: fi, former: None, other_role: self.m.owner, counterparty: cp(ti), owner: self.m.owner, stranger: STRANGER };
                 let (entries, ok) = self.entries(ctx, "transfer", *auth, &c, &args, &alt);
                 if fi == ti { ctx.count("probe.transfer_to_self"); }
                 let expect = if a < 0 {
@@ -340,7 +345,7 @@ impl TExec {
                 });
             }
             TOp::TransferFrom { spender, from, to, amount, auth, abort } => {
-                let (si, fi, ti) = (pi(*spender), pi(*from), pi(*to));
+                let (si, fi, ti) = (pi(*spender), pi(*from), ri(*to));
                 let a = self.amt(amount, fi, Some(si));
                 let args: SVec<Val> = (self.p[si].clone(), self.p[fi].clone(), self.p[ti].clone(), a).into_val(&env);
                 let alt: SVec<Val> = (self.p[si].clone(), self.p[fi].clone(), self.p[ti].clone(), a.wrapping_add(1)).into_val(&env);
@@ -416,7 +421,7 @@ impl TExec {
                 let args: SVec<Val> = (self.p[ti].clone(),).into_val(&env);
                 let alt: SVec<Val> = (self.p[(ti + 1) % NP].clone(),).into_val(&env);
                 let other = self.m.minters.iter().copied().find(|x| *x != o).unwrap_or(STRANGER);
-                let c = AuthCtx { right: o, former: self.m.former_owner, other_role: other, counterparty: ti, owner: o, stranger: STRANGER };
+                let c = AuthCtx { right: o, former: self.m.former_owner, other_role: other, counterparty: cp(ti), owner: o, stranger: STRANGER };
                 let (entries, ok) = self.entries(ctx, func, *auth, &c, &args, &alt);
                 if ti == o { ctx.count("probe.ownership_transfer_to_self"); }
                 self.judge(ctx, func, args, entries, *abort, Exp3::Ok, ok, &["C06"], |s| {
@@ -473,7 +478,7 @@ impl TExec {
         let env = self.sim.env.clone();
         let seq = self.sim.seq();
         let mut sum: u128 = 0;
-        for i in 0..NP {
+        for i in 0..self.p.len() {
             let b = self.sim.query(&self.token.clone(), "balance", (self.p[i].clone(),).into_val(&env));
             let bv = b.val().and_then(|v| i128::try_from_val(&env, &v).ok());
             if !ctx.check(bv == Some(self.m.bal(i)), &["C12", "C07"], "invariant/balance-differs", || {
@@ -548,6 +553,7 @@ impl World for WorldT {
         let n = rng.range(20, if p.thorough { 80 } else { 60 }) as usize;
         let holder = |rng: &mut Rng| rng.range(2, 5) as u8;
         let anyp = |rng: &mut Rng| if rng.chance(4, 5) { rng.range(2, 5) as u8 } else { rng.below(NP as u64) as u8 };
+        let anyto = |rng: &mut Rng| if rng.chance(1, 10) { 100 + rng.below(NX as u64) as u8 } else if rng.chance(4, 5) { rng.range(2, 5) as u8 } else { rng.below(NP as u64) as u8 };
         let amt = |rng: &mut Rng, delegated: bool| -> Amt {
             match rng.weighted(&[if delegated { 1 } else { 2 }, 3, if delegated { 12 } else { 8 }, 4, 3, if delegated { 4 } else { 0 }, if delegated { 4 } else { 0 }, 4, 1, 2]) {
                 0 => Amt::Zero,
@@ -576,9 +582,9 @@ impl World for WorldT {
             let admin_auth = |rng: &mut Rng| if fault { *rng.pick(&[AuthVar::Former, AuthVar::OtherRole, AuthVar::Counterparty, AuthVar::Stranger, AuthVar::Nobody, AuthVar::RightOtherArgs]) } else { AuthVar::Right };
             let abort = opt_abort(rng, f_abort, 120);
             let op = match rng.weighted(&w) {
-                0 => TOp::MintFrom { minter: if rng.chance(4, 5) { rng.below(2) as u8 } else { anyp(rng) }, to: anyp(rng), amount: amt(rng, false), auth: user_auth(rng), abort },
-                1 => TOp::Mint { to: anyp(rng), amount: amt(rng, false), auth: admin_auth(rng), abort },
-                2 => TOp::Transfer { from: holder(rng), to: anyp(rng), amount: amt(rng, false), auth: user_auth(rng), abort },
+                0 => TOp::MintFrom { minter: if rng.chance(4, 5) { rng.below(2) as u8 } else { anyp(rng) }, to: anyto(rng), amount: amt(rng, false), auth: user_auth(rng), abort },
+                1 => TOp::Mint { to: anyto(rng), amount: amt(rng, false), auth: admin_auth(rng), abort },
+                2 => TOp::Transfer { from: holder(rng), to: anyto(rng), amount: amt(rng, false), auth: user_auth(rng), abort },
                 3 => TOp::Approve {
                     from: holder(rng),
                     spender: anyp(rng),
@@ -594,7 +600,7 @@ impl World for WorldT {
                     auth: user_auth(rng),
                     abort,
                 },
-                4 => TOp::TransferFrom { spender: anyp(rng), from: holder(rng), to: anyp(rng), amount: amt(rng, true), auth: user_auth(rng), abort },
+                4 => TOp::TransferFrom { spender: anyp(rng), from: holder(rng), to: anyto(rng), amount: amt(rng, true), auth: user_auth(rng), abort },
                 5 => TOp::Burn { from: holder(rng), amount: amt(rng, false), auth: user_auth(rng), abort },
                 6 => TOp::BurnFrom { spender: anyp(rng), from: holder(rng), amount: amt(rng, true), auth: user_auth(rng), abort },
                 7 => TOp::AddMinter { who: rng.below(NP as u64) as u8, auth: admin_auth(rng), abort },
@@ -630,7 +636,7 @@ impl World for WorldT {
         }
         let mut sim = Sim::new(1_700_000_000, cfg.start_seq);
         let env = sim.env.clone();
-        let p: Vec<Address> = (0..NP).map(|_| Address::generate(&env)).collect();
+        let mut p: Vec<Address> = (0..NP).map(|_| Address::generate(&env)).collect();
         let minter_idx = if cfg.minter_is_owner { 0 } else { 1 };
         let minter: Option<Address> = if cfg.with_minter { Some(p[minter_idx].clone()) } else { None };
         let token = env.register(
@@ -642,6 +648,13 @@ impl World for WorldT {
                 TokenMetadata { decimal: 7, name: SStr::from_str(&env, "Sim Token"), symbol: SStr::from_str(&env, "SIM") },
             ),
         );
+        let zero_account = {
+            use soroban_sdk::xdr::{AccountId, PublicKey, ScAddress, Uint256};
+            Address::try_from_val(&env, &ScVal::Address(ScAddress::Account(AccountId(PublicKey::PublicKeyTypeEd25519(Uint256([0u8; 32])))))).unwrap()
+        };
+        p.push(zero_account);
+        p.push(crate::host::account_twin(&env, &p[2]));
+        p.push(token.clone());
         sim.end_setup();
         let mut m = TModel { owner: 0, ..Default::default() };
         m.minters.insert(0);
